@@ -12,6 +12,7 @@ import numpy as np
 
 from tvmon import core, gen, ref
 from tvmon import docsig
+from tvmon import sanit
 from tvmon.ref import EPS
 from tvmon.interpose import installed
 
@@ -170,6 +171,8 @@ def make_truncate(orig):
             judge_truncate(ctx, Y_in, Z, e_in, r_in,
                 bool(a['orth']), bool(a['use_stab']), bool(a['is_eigh']),
                 _state['nested'] > 0)
+            if _state['nested'] == 0:
+                Z = sanit.hand_out(Z)
         return Z
     return truncate
 
